@@ -448,6 +448,9 @@ func cmdCheck(args []string) int {
 			fmt.Printf("ENGINE-ERROR %s: %s\n", r.Task, r.Err)
 		}
 		for _, inc := range r.Res.Incomplete {
+			if i >= nMain && strings.HasPrefix(inc, "stopped after") {
+				continue // a confirmation task is expected to find its finding on many paths
+			}
 			incompletes = append(incompletes, r.Task.String()+": "+inc)
 		}
 		if len(samples) < 12 && (i%((len(results)/12)+1) == 0) {
